@@ -230,7 +230,15 @@ class Profile:
                 else:
                     try:
                         if isinstance(self.__dict__[n], bool):
-                            self.__dict__[n] = not (v in ["False", "0"])
+                            if isinstance(v, str):
+                                s = v.strip().lower()
+                                if s not in ["true", "false", "1", "0"]:
+                                    raise ValueError(v)
+                                self.__dict__[n] = s in ["true", "1"]
+                            elif isinstance(v, (bool, int)) and v in [0, 1]:
+                                self.__dict__[n] = bool(v)
+                            else:
+                                raise ValueError(v)
                         else:
                             typ = type(self.__dict__[n])
                             self.__dict__[n] = typ(v)
